@@ -73,6 +73,8 @@ def generate(rng, tier):
                 op["cv"] = {"typ": rng.choice(["SUR", "WFR", "wfr"]), "nnb": rng.random() < 0.5}
             if fmt == "ifg" and rng.random() < 0.05:
                 op["dx"] = 0.0          # the library's "no lateral calibration" marker
+            if fmt == "ifg" and rng.random() < 0.25:
+                op["intensity"] = rng.choice(["f64", "u16", "f32"])      # the object carries a camera frame
             if fmt == "ifg" and rng.random() < 0.3:
                 # the Interferogram has a life before it is saved: steps that only touch the calibration
                 op["prep"] = [rng.choice([["strip_latcal"], ["latcal", round(10 ** rng.uniform(-2, 1), 4)],
@@ -220,7 +222,14 @@ def _dx_after(dx, prep):
     return dx
 
 
-def _write(w, fmt, path, z, dx, wvl, cv=None, holder=None, prep=None):
+def _intensity(np, z, kind):
+    if not kind:
+        return None
+    a = (np.arange(z.size, dtype=np.float64).reshape(z.shape) % 251) * 3.0 + 7.0
+    return a.astype({"f64": np.float64, "f32": np.float32, "u16": np.uint16}[kind])
+
+
+def _write(w, fmt, path, z, dx, wvl, cv=None, holder=None, prep=None, inten=None):
     """Call the real writer with the caller's own array object (no defensive copy:
     that is what user code does).  `holder` keeps the caller's Interferogram."""
     from prysm.interferogram import Interferogram
@@ -233,7 +242,7 @@ def _write(w, fmt, path, z, dx, wvl, cv=None, holder=None, prep=None):
     elif fmt == "ifg":
         if holder is not None:
             if holder.get("ifg") is None:
-                holder["ifg"] = Interferogram(z, dx=dx, wavelength=wvl)
+                holder["ifg"] = Interferogram(z, dx=dx, wavelength=wvl, intensity=_intensity(w.np, z, inten))
                 for step in (prep or []):
                     if step[0] == "strip_latcal":
                         holder["ifg"].strip_latcal()
@@ -245,7 +254,7 @@ def _write(w, fmt, path, z, dx, wvl, cv=None, holder=None, prep=None):
                         holder["ifg"].r
             holder["ifg"].save_zygo_dat(path)
         else:
-            i0 = Interferogram(z, dx=dx, wavelength=wvl)
+            i0 = Interferogram(z, dx=dx, wavelength=wvl, intensity=_intensity(w.np, z, inten))
             for step in (prep or []):
                 if step[0] == "strip_latcal":
                     i0.strip_latcal()
@@ -292,7 +301,7 @@ def _layout(w, fmt, shape, dx, wvl):
         step = wvl * 1e3 / 32768.0
         w.pio.write_zygo_dat(scratch, probe * step * 16, dx, wavelength=wvl)
         raw = w.disk.files[scratch]
-        vals = np.frombuffer(raw[HDR:], dtype=">i4")
+        vals = np.frombuffer(raw[len(raw) - 4 * m * n:], dtype=">i4")
         pos = []
         for v in vals:
             idx = int(round(int(v) / 16.0)) - 1
@@ -330,8 +339,14 @@ def _sample_spans(w, entry):
     raw = entry["full"]
     if entry["fmt"] == "codev":
         return _codev_tokens(raw)
-    n = (len(raw) - HDR) // 4
-    return [(HDR + 4 * i, HDR + 4 * i + 4) for i in range(n)]
+    # the phase block is the last 4*m*n bytes of the complete file (a writer may put an
+    # intensity block between the 834-byte header and the phase data)
+    n = int(entry["map"].size)
+    p0 = len(raw) - 4 * n
+    if p0 < HDR:
+        n = (len(raw) - HDR) // 4
+        p0 = HDR
+    return [(p0 + 4 * i, p0 + 4 * i + 4) for i in range(n)]
 
 
 def _resolve(where, entry, spans):
@@ -615,7 +630,8 @@ def execute(plan):
             full = None
             dry_exc = None
             try:
-                _write(w, "zygo_path" if fmt in ("zygo_file",) else fmt, "/sim/.dry", zfix.copy(), dx_eff, wvl_eff, op.get("cv"))
+                _write(w, "zygo_path" if fmt in ("zygo_file",) else fmt, "/sim/.dry", zfix.copy(), dx_eff, wvl_eff, op.get("cv"),
+                       None, None, op.get("intensity"))
                 full = w.disk.files.pop("/sim/.dry")
             except Exception as e:
                 dry_exc = e
@@ -638,14 +654,16 @@ def execute(plan):
             if fault:
                 at = _resolve(fault["where"], entry, spans)
                 if fault["kind"] == "eio_close":
-                    w.disk.arm(path, {"kind": "eio_close"})
+                    # half of the time the failing flush also loses a tail of the data
+                    lose = int(fault["survive_u"] * 64) if fault["survive_u"] < 0.5 else 0
+                    w.disk.arm(path, {"kind": "eio_close", "lose": lose})
                 else:
                     w.disk.arm(path, {"kind": fault["kind"], "at": at, "survive": int(fault["survive_u"] * (at + 1))})
                 ev["fault"] = [fault["kind"], at]
             out = "ok"
             prev_entry, prev_bytes = model.get(path), w.disk.files.get(path)
             try:
-                _write(w, fmt, path, z, op["dx"], op["wvl"], op.get("cv"), holder, op.get("prep"))
+                _write(w, fmt, path, z, op["dx"], op["wvl"], op.get("cv"), holder, op.get("prep"), op.get("intensity"))
             except SimCrash:
                 out = "crash"
             except Exception as e:
@@ -663,6 +681,11 @@ def execute(plan):
             now = w.disk.files.get(path)
             ev["len"] = -1 if now is None else len(now)
             ev["fp"] = core.fp_bytes(now or b"")
+            if out == "ok" and fault and (now is None or (len(now) < len(full) and full.startswith(now))):
+                # an I/O error happened during this write and the writer returned as if nothing had:
+                # the caller has no way to know the file is incomplete
+                viol("write-error-swallowed", i, "codev" if fmt == "codev" else "zygo", "none",
+                     fault=fault["kind"], on_disk=-1 if now is None else len(now), complete=len(full))
             if out != "ok" and now is None:
                 # the failed write left nothing at the path (e.g. a writer that goes through a
                 # temporary file and renames): later reads have nothing to be judged against
